@@ -158,3 +158,8 @@ def range_of_hash(h, f):
 def golomb_m():
     from buidl.compactfilter import GOLOMB_M, GOLOMB_P
     return GOLOMB_M, GOLOMB_P
+
+
+def cf_hash(key, values):
+    """filter hash of a CompactFilter built from already hashed (ascending or not) values"""
+    return CompactFilter(key, list(values)).hash()
